@@ -3,7 +3,7 @@ CHECK_DEADLOCK FALSE
 CONSTANTS
   Mode = "sweep"
   Addrs <- Addrs3
-  BehNames <- BehCore
+  BehNames <- BehSmall
   RatPool <- Rats4
   SrcPool <- Srcs3
   Export = TRUE
